@@ -124,10 +124,44 @@ print('DELTAS', bad)
     return dict(reproduced=bool(violated), violated=violated, observed=dict(returncode=p.returncode, stdout=p.stdout[-200:]))
 
 
+def compound_order_case(case):
+    """C03: a compound yields the result of the first accepting alternative, on the compiled path exactly as through the
+    Python validate().  Probes pairs of alternatives that both accept the value (a cast before / after a plain type)."""
+    from traits.api import HasTraits, Either, CFloat, CInt, CStr, Str, Float, Int, Tuple, TraitError
+    probes = [((CFloat, Str), "1.5"), ((Str, CFloat), "1.5"), ((CInt, Float), 2.5), ((Float, CInt), 2.5), ((CStr, Int), 3), ((Int, CStr), 3),
+              ((CInt, Str, Float), "7")]
+    violated = []
+    for alts, value in probes:
+        class A(HasTraits):
+            x = Either(*alts)
+        a = A()
+        a.x = value
+        fast = a.x
+        py = A.class_traits()["x"].handler.validate(a, "x", value)
+        first = None
+        for alt in alts:
+            class B(HasTraits):
+                y = alt
+            b = B()
+            try:
+                b.y = value
+                first = b.y
+                break
+            except TraitError:
+                continue
+        names = "Either(%s)" % ", ".join(t.__name__ for t in alts)
+        if (type(fast), fast) != (type(py), py):
+            violated.append("%s <- %r: compiled path stores %r, Python validate gives %r" % (names, value, fast, py))
+        if (type(fast), fast) != (type(first), first):
+            violated.append("%s <- %r: stores %r, the first accepting alternative alone gives %r" % (names, value, fast, first))
+    return dict(reproduced=bool(violated), violated=violated)
+
+
 def main():
     case = json.loads(sys.stdin.read())
     out = {"float_range": float_range_case, "ctrait_state": ctrait_state_case,
-           "setattr_name_refcount": setattr_name_refcount_case}[case["family"]](case)
+           "setattr_name_refcount": setattr_name_refcount_case,
+           "compound_order": compound_order_case}[case["family"]](case)
     print(json.dumps(out, default=repr))
 
 
